@@ -38,6 +38,10 @@ ASSUMPTIONS = [
     "enter(None) for an unguarded single child that is None is outside the model (outcome NoneNode, never produced by parsed documents)",
 ]
 TRUSTED = [
+    "child-kind table `childKinds` (hypothesis `wellKinded` of all_covered_children_visited / siblings_in_source_order_today): classes admitted per "
+    "(kind, attribute) = annotations of lang/ast.py with abstract bases expanded UNION classes the real parser produces on the probe documents of "
+    "C18_table.py (witnesses, two all-features probes, both kitchen sinks); every document of every run is checked against it (`wellkinded:*` = a "
+    "correspondence failure); `source order` of siblings = `__slots__` order, checked against `loc` on the probe documents at extraction",
     "dynamic fallback of the table extraction (C18_dynamic.py, used only when the static extractor does not recognise a shape; evidence key `extraction`): "
     "ENUMERATION ASSUMPTION - the traversal of a node depends only on its class and on which attributes are None, children are dispatched by their own class; "
     "observed on one maximal instance per node class of lang/ast.py with a recording visitor, a None probe per single child and a replacement probe per attribute",
@@ -440,6 +444,9 @@ def run(ctx):
         ctx.extra["extraction"] = table["mode"]
         ctx.extra["table_methods"] = len(table["methods"])
         ctx.extra["table_steps"] = sum(len(s) for _, s in table["methods"])
+        _CK.clear()
+        _CK.update({tuple(k): set(v) for k, v in table.get("child_kinds", [])})
+        ctx.extra["child_kind_rows"] = len(_CK)
     except Exception as e:  # the obligation is already reported by the framework
         ctx.notes.append("table extraction failed: %s" % e)
     docs = documents(ctx)
@@ -468,10 +475,16 @@ def run(ctx):
                 ctx.notes.append("case generation failed: %r" % e)
                 continue
             ctx.stat("entered-nodes<=10" if n_ent <= 10 else ("entered-nodes<=40" if n_ent <= 40 else "entered-nodes>40"))
+            first = True
             for c in cases:
                 req, out = run_real(text, kw, c)
                 reqs.append(req)
                 meta.append((text, kw, c, out))
+                if first and "method" not in req:
+                    # hypothesis `WellShaped table t` of wellShaped_visit_ok, on the generic tree of this parsed document
+                    first = False
+                    reqs.append({"op": "shape", "tree": req["tree"]})
+                    meta.append((text, kw, {"what": "shape"}, {}))
                 # the SPECIFICATION `Spec.editAt` against the real result (delete / replace at one position)
                 if (c.get("what") in ("delete", "replace", "replace-other") and c.get("path") and "err" not in out
                         and (exhaustive or ctx.rng.random() < 0.35)):
@@ -511,10 +524,27 @@ def _identity_trace(text, kw):
     return tr
 
 
+_CK = {}
+
+
+def check_well_kinded(ctx, doc, text, kw):
+    """hypothesis `wellKinded childKinds t` of Props/C18_reach.lean (all_covered_children_visited, the sibling-order theorems):
+       every child class the parser produced is in the re-extracted child-kind table"""
+    if not _CK:
+        return
+    bad = T.ill_kinded(doc, _CK)
+    ctx.stat("well-kinded" if not bad else "ill-kinded")
+    for k, a, c in sorted(set(bad))[:3]:
+        ctx.fail("wellkinded:%s.%s:%s" % (k, a, c), "the parser produced a %s under %s.%s, outside the child-kind table extracted from "
+                 "lang/ast.py + probe documents: the hypothesis of the coverage / order theorems does not hold for this document" % (c, k, a),
+                 {"text": text, "kw": kw, "what": "wellkinded"}, kind="correspondence")
+
+
 def direct_oracle(ctx, text, kw, fail, exhaustive, big=False):
     r = O.check_structure(ctx, text, kw, fail)
     ctx.count()
     doc, idx, trace, entered = r
+    check_well_kinded(ctx, doc, text, kw)
     n = len(entered)
     if n >= 3:
         ctx.nontrivial(("structure", text))
@@ -585,6 +615,14 @@ def _register_later(ctx, text, kw, n):
 
 
 def compare(ctx, text, kw, case, out, ans):
+    if case.get("what") == "shape":
+        ctx.count()
+        ctx.stat("well-shaped" if ans.get("shape") is True else "ill-shaped")
+        if ans.get("shape") is not True:
+            ctx.fail("corr:shape:ill-shaped", "a document produced by the real parser does not pass `WellShaped table` (the premise of "
+                     "wellShaped_visit_ok): the completion of its identity visit is not covered by the theorem", {"text": text, "kw": kw},
+                     kind="correspondence")
+        return
     ctx.count()
     what = case.get("what", "identity")
     ctx.stat("case:" + what)
@@ -644,6 +682,8 @@ def replay(ctx, data):
     def fail(s, w, d):
         seen.append(s)
     try:
+        if inp.get("what") == "wellkinded":
+            return not T.ill_kinded(O.parse_doc(text, kw), T.get_table().get("child_kinds", []))
         if "case" in inp:   # a correspondence disagreement: re-ask the model
             req, out = run_real(text, kw, inp["case"])
             ans = ctx.driver.ask([req])[0]
